@@ -24,7 +24,7 @@ PROPS = {
 }
 
 PROPS["C01"] = {
-    "kind": "harness", "test": "TestC01", "level": "exploration",
+    "kind": "harness", "test": "TestC01", "level": "exploration", "journal": True,
     "tiers": tiers(1500, 8, 20000, 16),
     "rule": "rapid-generated histories of 5-60 valid CREATE TABLE / INSERT (single, multi-row, with column lists, direct values incl. negative ints, bytes, NULL) / "
             "UPDATE / DELETE statements over 1-12 tables, executed as SQL text through Session.ExecQuery (direct statement values through engine.Evaluate*), "
@@ -38,7 +38,7 @@ PROPS["C01"] = {
 }
 
 PROPS["C02"] = {
-    "kind": "harness", "test": "TestC02", "level": "fault_enumeration",
+    "kind": "harness", "test": "TestC02", "level": "fault_enumeration", "journal": True,
     "tiers": tiers(800, 8, 12000, 16),
     "rule": "rapid-generated cases of 1-4 segments of valid DDL/DML histories (<=22 statements each, 1-9 tables) with a generated flush pattern "
             "(never / always / random subset / only after DDL), each segment ended by process death (stores abandoned, nothing flushed) or clean shutdown; "
@@ -144,7 +144,7 @@ PROPS["C07"] = {
 }
 
 PROPS["C08"] = {
-    "kind": "harness", "test": "TestC08", "level": "exploration",
+    "kind": "harness", "test": "TestC08", "level": "exploration", "journal": True,
     "tiers": tiers(1500, 8, 25000, 16),
     "rule": "rapid-generated cases: a schema of 1-8 columns in any mix/order of the four types (first column a unique row number), optionally 3-40 pre-filled and flushed rows (a table over several clean leaves), then two phases of single-row operations: INSERT and UPDATE of boundary-biased values "
             "(INT/BIGINT extremes, 2^53+1, empty strings, NUL/0xFF/invalid UTF-8 bytes, NULLs), rows built to encode to exactly 400 bytes (must be accepted) and 401 bytes (must be refused), wrong-kind values, INT beyond 32 bits; "
@@ -157,7 +157,7 @@ PROPS["C08"] = {
 }
 
 PROPS["C14"] = {
-    "kind": "harness", "test": "TestC14", "level": "exploration",
+    "kind": "harness", "test": "TestC14", "level": "exploration", "journal": True,
     "tiers": tiers(3000, 8, 50000, 16),
     "rule": "rapid-generated cases: a database state built by a valid history of 2-14 statements (generated flushes, so changes may be unflushed), then ONE failing statement: INSERT/UPDATE/DELETE on an unknown table, duplicate CREATE TABLE, "
             "and INSERT with column-count mismatch / type mismatch / INT out of range / oversize row where the offending row sits at every index k of n rows, UPDATE with a bad value, UPDATE that becomes oversize only at the k-th matching row, CREATE TABLE whose k-th column the catalog cannot record, DELETE/UPDATE whose WHERE cannot be evaluated for a later row, the table addressed in another letter case (the last three are the implementation's choice to refuse: checked as implication only). "
@@ -170,7 +170,7 @@ PROPS["C14"] = {
 }
 
 PROPS["C16"] = {
-    "kind": "harness", "test": "TestC16", "level": "exploration",
+    "kind": "harness", "test": "TestC16", "level": "exploration", "journal": True,
     "tiers": tiers(400, 8, 6000, 16),
     "rule": "rapid-generated histories of 25-90 valid statements over up to 14 tables (every statement's dirty set fits the cache - the property's precondition: INSERTs of at most 4*(cache-6) rows, UPDATE/DELETE touching at most cache-6 rows - while the tables themselves grow far beyond the cache), executed twice through the real engine: "
             "with the default cache of 10000 pages and with a cache of a generated capacity 12-40 pages (hook VerifSetCacheSize) and a flush after every statement. Oracle (differential + model): every statement has the same outcome, "
@@ -182,7 +182,7 @@ PROPS["C16"] = {
 }
 
 PROPS["C17"] = {
-    "kind": "harness", "test": "TestC17", "level": "exploration",
+    "kind": "harness", "test": "TestC17", "level": "exploration", "journal": True,
     "tiers": tiers(2500, 8, 40000, 16),
     "rule": "rapid-generated session histories of 8-60 operations over the database names d1,d2,d3,shop: CREATE DATABASE (new / existing), USE (other / current / non-existent), SHOW DATABASES, valid DDL/DML on the selected database (a table statement with nothing selected must fail), "
             "timer ticks (VerifTickAll runs flushPages on every store that owns a flush timer right now, oldest or newest first - including stores a USE left behind), clean restarts and crash restarts. "
@@ -220,7 +220,7 @@ PROPS["C15"] = {
 }
 
 PROPS["C11"] = {
-    "kind": "storage", "test": "TestVerifC11", "level": "exploration",
+    "kind": "storage", "test": "TestVerifC11", "level": "exploration", "journal": True,
     "tiers": tiers(200, 8, 3000, 16, qtimeout=900),
     "rule": "rapid-generated histories of 10-120 operations through the real RelationService over 1-4 trees sharing one file: CreateTable, Insert batches of 1-40 rows with payloads of 1-390 bytes, Update, MarkDeleted, flushPages, reload (flush + empty cache), "
             "close/reopen and crash + WAL recovery; after EVERY operation a page-graph walker written from the definition checks the catalog trees and every user tree of the file: keys strictly ascending within and across leaves, every key inside the bounds given by its ancestors' separators, "
